@@ -37,6 +37,12 @@ def run(ctx):
                                      {"k": "wait"}, {"k": "step"}, {"k": "wait"}]},
                           {"nodes": [{"k": "map", "caught": True, "cfg": {"tolc": 2}, "braise": [0], "branches": [[], [{"k": "step", "fail": -1, "max": 1, "errmsg": "<none>", "errtype": "ValueError"}], [{"k": "step"}]]},
                                      {"k": "wait"}, {"k": "step", "fail": -1, "max": 1, "caught": True, "errmsg": 0, "errtype": "ValueError"}, {"k": "wait"}]},
+                          # user code that modifies a delivered list / dict in place: later calls at the same position (and at other positions
+                          # with an equal recorded value) must still yield the RECORDED result
+                          {"nodes": [{"k": "step", "val": 1, "mutate": True}, {"k": "wait"}, {"k": "step", "val": 1, "mutate": True}, {"k": "wait"},
+                                     {"k": "step", "val": 0, "mutate": True}, {"k": "wait"}, {"k": "step"}]},
+                          {"nodes": [{"k": "child", "mutate": True, "body": [{"k": "step", "val": 1, "mutate": True}, {"k": "step", "val": 1}]},
+                                     {"k": "wait"}, {"k": "wfc", "polls": 1, "states": [[1, 2.5, "x"]], "mutate": True}, {"k": "wait"}, {"k": "wait"}]},
                           # map / parallel: a branch that parks on a timer and is resumed inside the same invocation (a sibling is
                           # still running) re-traverses its completed operations; re-invocation after the whole call suspended
                           # oversized map / parallel results with mixed outcomes, rebuilt from the children's records on replay
